@@ -87,14 +87,14 @@ def rtIo : Io Rt where
   buildable _ := true
   bits _ := 0
 
-def fsIo (v6 : Bool) : Io Fs where
+def fsIo (_v6 : Bool) : Io Fs where
   shw n := s!"afi={n.afi} raw={hexOrDash n.raw}"
   read
     | [ta, tr] => match kvNat "afi" ta, kvHex "raw" tr with
       | some a, some r => some ⟨a, r⟩
       | _, _ => none
     | _ => none
-  buildable n := n.afi == (if v6 then 2 else 1)
+  buildable n := decide (n.afi < 65536)
   bits _ := 0
 
 def vplsIo : Io Vpls where
@@ -116,7 +116,7 @@ def evpnIo : Io Evpn where
       | some t, some r => some ⟨t, r⟩
       | _, _ => none
     | _ => none
-  buildable n := decide (n.rtype < 256)
+  buildable n := rtypeValid n.rtype
   bits _ := 0
 
 def Io.addpath {α} (io : Io α) : Io (Nat × α) where
